@@ -14,7 +14,9 @@ WideSinkNames == {"writef_wostream", "writef_wostream_w", "writef_u16ostream", "
 (* unit is not ASCII.                                                      *)
 KF_Fmt(ev, s, r) ==
     IF s.k \in WideSinkNames /\ r.res = "ok" /\ ChunkSplitsCharacter(r.chunks)
-       /\ s.res \in {"ok", "unicode_error"}
+       \* ... and the sink did what the code as written does with these chunks: refuse a chunk that is not
+       \* well-formed on its own, otherwise write (cast pad units) - any other outcome is a new violation
+       /\ s.res = WideAsWritten(r.chunks, "utf32", 1).res
     THEN "D14-wide-sinks-transcode-per-chunk"
     ELSE "none"
 
